@@ -107,19 +107,22 @@ func round5(cfg hx.Config, vr *ga.ValueRun, cat *ga.Catalogue, meta *hx.Meta) er
 			}
 		}
 	}
-	emb, amb := cat.EmbeddedShapesR5()
+	emb, embx, amb := cat.EmbeddedShapesR5()
+	tag, tagx := cat.TagShapesR5()
 	groups := []struct {
 		name  string
 		types []*ga.Type
 	}{
-		{"embtag", append(emb, cat.TagShapesR5()...)},
+		{"emb", emb},
+		{"tag", tag},
+		{"embtagx", append(embx, tagx...)},
 		{"ifmeth", cat.NamedIfaceMethodShapesR5()},
 		{"embamb", amb},
 	}
 	if cfg.Tier != "thorough" {
 		// where a promoted selector cannot even be written a wrong generator is seen by the compiler; the
 		// quick tier keeps to the shapes on which it would be seen by a wrong answer
-		groups = groups[:2]
+		groups = groups[:4]
 	}
 	metas := make([]*hx.Meta, len(groups))
 	errs := make([]error, len(groups))
